@@ -13,7 +13,8 @@ EXPLANATION = (
     "Pairing discipline inside RequestCache, each as a dominance / post-dominance fact on the function's CFG: pop removes "
     "the identifier and then cancels that cache's timeout task on every path, and lets the KeyError of a missing cache out; "
     "_on_timeout unregisters the identifier before the user callback runs and completes each managed future only when it is "
-    "not done (tested, or InvalidStateError swallowed per future); add stores only when not shut down and the identifier is "
+    "not done (tested, or InvalidStateError swallowed per future), and what it traverses is read from cache.managed_futures "
+    "after the callback returned (a copy taken before it misses futures the callback ties); add stores only when not shut down and the identifier is "
     "free, under the lock, and always registers the timeout task for that same cache; NumberCache.__init__ / "
     "find_unclaimed_identifier refuse numbers in use; shutdown sets the flag, cancels tasks, cancels every tied future that "
     "is not done (no iteration of the traversal gets round the cancel; none is completed with a value instead) and clears "
@@ -21,7 +22,9 @@ EXPLANATION = (
     "to RequestCache and its own new private helpers; retrieve_cache turns a missing cache into a no-op, runs the handler "
     "only with the cache it popped and never registers that cache again; add resolves futures of the offered cache only "
     "when it refuses the cache at shutdown. Constructs are recognised by what they compute: the rules read a private copy "
-    "of each function on which only behaviour-preserving rewrites are made (with suppress(E) as try/except, map / filter / "
+    "of each function on which only behaviour-preserving rewrites are made (with suppress(E) as try/except, a new private "
+    "context manager - class with __enter__/__exit__ or @contextmanager generator - as the try / except T / else / finally "
+    "its enter and exit parts amount to, undecided when it cannot be written out, map / filter / "
     "filterfalse / comprehension statements as the loops they run, operator and functools callables applied, generator "
     "helpers and new helpers of such pipelines inlined, result objects - NamedTuple, dataclass, tuple, dict displays - split "
     "into one local per field); definitions are the ones that reach a use on paths that can happen; decisions stored in "
@@ -2312,6 +2315,538 @@ def _compose_decorated(fi: FuncInfo, node: ast.AST) -> ast.AST | None:
     return wrapper
 
 
+# --- private context managers made explicit.  `with K(args) [as v]: BODY` with a NEW private manager (a class with __enter__ /
+#     __exit__ whose construction only stores its arguments, or a @contextmanager generator with one yield) runs the manager's
+#     own code around BODY: the enter part, BODY inside `try`, and the exit part as the `except` / `else` / `finally` clauses it
+#     amounts to - `__exit__` read once for "an exception arrived" (exc_type is type(e), never None; returning something false
+#     is `raise`, something true leaves the handler) and once for "BODY ended normally" (all three parameters are None).  A
+#     guard `if not issubclass(exc_type, T): return False` in front is the clause `except T`.  A new manager that cannot be
+#     written out this way is undecided: it may swallow exceptions, which every path question of these rules depends on.
+_CM_EXC = "exc_cm_"
+
+
+class _GiveUp(Exception):
+    pass
+
+
+def _cm_fold(t: ast.expr) -> ast.expr:
+    """t, used for its truth value only, with the parts decided by the scenario folded (exact: `None is None`, `type(e) is None`,
+    constant operands of not / and / or)"""
+    if isinstance(t, ast.UnaryOp) and isinstance(t.op, ast.Not):
+        t.operand = _cm_fold(t.operand)
+        return ast.copy_location(ast.Constant(not t.operand.value), t) if isinstance(t.operand, ast.Constant) else t
+    if isinstance(t, ast.Compare) and len(t.ops) == 1 and isinstance(t.ops[0], (ast.Is, ast.IsNot)):
+        a, b = t.left, t.comparators[0]
+        res = None
+        if isinstance(a, ast.Constant) and isinstance(b, ast.Constant) and all(x.value is None or isinstance(x.value, bool) for x in (a, b)):
+            res = a.value is b.value
+        elif (getattr(a, "_c10_notnone", False) and _is_none(b)) or (getattr(b, "_c10_notnone", False) and _is_none(a)):
+            res = False
+        if res is not None:
+            return ast.copy_location(ast.Constant(res if isinstance(t.ops[0], ast.Is) else not res), t)
+        return t
+    if getattr(t, "_c10_truthy", False):
+        return ast.copy_location(ast.Constant(True), t)
+    if isinstance(t, ast.Call) and chain(t.func) == "isinstance" and len(t.args) == 2 and not t.keywords and _is_none(t.args[0]):
+        import builtins
+        kinds = t.args[1].elts if isinstance(t.args[1], ast.Tuple) else [t.args[1]]
+        if all(isinstance(k_, ast.Name) and isinstance(getattr(builtins, k_.id, None), type) and issubclass(getattr(builtins, k_.id), BaseException) for k_ in kinds):
+            return ast.copy_location(ast.Constant(False), t)       # None is not an instance of an exception class
+    if isinstance(t, ast.Constant) and t.value is None:
+        return ast.copy_location(ast.Constant(False), t)
+    if isinstance(t, ast.Call) and chain(t.func) == "bool" and len(t.args) == 1 and not t.keywords:
+        inner = _cm_fold(t.args[0])
+        return inner if isinstance(inner, ast.Constant) else t
+    if isinstance(t, ast.BoolOp):
+        vals = [_cm_fold(v) for v in t.values]
+        is_and = isinstance(t.op, ast.And)
+        out = []
+        for v in vals:
+            if isinstance(v, ast.Constant):
+                if bool(v.value) is is_and:
+                    continue
+                out.append(v)
+                break
+            out.append(v)
+        if not out:
+            return ast.copy_location(ast.Constant(is_and), t)
+        if len(out) == 1:
+            return out[0]
+        t.values = out
+        return t
+    return t
+
+
+def _cm_escapes(body: list, in_loop: bool = False) -> bool:
+    """BODY can leave the with-statement by return / break / continue"""
+    for st in body:
+        if isinstance(st, ast.Return) or (isinstance(st, (ast.Break, ast.Continue)) and not in_loop):
+            return True
+        if isinstance(st, (ast.FunctionDef, ast.AsyncFunctionDef, ast.ClassDef)):
+            continue
+        loop = isinstance(st, (ast.For, ast.AsyncFor, ast.While))
+        for field in ("body", "orelse", "finalbody"):
+            blk = getattr(st, field, None)
+            if isinstance(blk, list) and blk and isinstance(blk[0], ast.stmt) and _cm_escapes(blk, in_loop or (loop and field == "body")):
+                return True
+        if any(_cm_escapes(h.body, in_loop) for h in getattr(st, "handlers", [])) or any(_cm_escapes(c.body, in_loop) for c in getattr(st, "cases", [])):
+            return True
+    return False
+
+
+def _cm_conv(stmts: list, mode: str) -> list:
+    """the statements of an __exit__ body (already specialised for the scenario) without `return`: in scenario "exc" a false
+    result is a bare `raise` (the exception goes on), a true one ends the handler; in scenario "norm" the result is ignored"""
+    out: list = []
+    for i, st in enumerate(stmts):
+        if isinstance(st, ast.Return):
+            v = _cm_fold(st.value) if st.value is not None else ast.Constant(None)
+            effects = any(isinstance(x, (ast.Call, ast.Await, ast.NamedExpr)) for x in ast.walk(v))
+            if mode == "norm":
+                return out + ([ast.copy_location(ast.Expr(v), st)] if effects else [])
+            if isinstance(v, ast.Constant):
+                return out + ([] if v.value else [ast.copy_location(ast.Raise(None, None), st)])
+            return out + [ast.copy_location(ast.If(ast.UnaryOp(ast.Not(), v), [ast.copy_location(ast.Raise(None, None), st)], []), st)]
+        if isinstance(st, ast.If):
+            st.test = _cm_fold(st.test)
+            rest = stmts[i + 1:]
+            if isinstance(st.test, ast.Constant):
+                return out + _cm_conv((st.body if st.test.value else st.orelse) + rest, mode)
+            if not any(isinstance(x, ast.Return) for s in st.body + st.orelse for x in _walk_stmt_no_nested(s)):
+                for x in ast.walk(st):
+                    if isinstance(x, (ast.If, ast.While, ast.IfExp)):
+                        x.test = _cm_fold(x.test)
+                out.append(st)
+                continue
+            b = _cm_conv(st.body + [clone(x) for x in rest], mode)
+            o = _cm_conv(st.orelse + rest, mode)
+            if not b and not o:
+                if any(isinstance(x, (ast.Call, ast.Await, ast.NamedExpr)) for x in ast.walk(st.test)):
+                    out.append(ast.copy_location(ast.Expr(st.test), st))
+                return out
+            if not b:
+                b, o, st.test = o, [], _cm_fold(ast.copy_location(ast.UnaryOp(ast.Not(), st.test), st.test))
+            return out + [ast.copy_location(ast.If(st.test, b, o), st)]
+        if any(isinstance(x, ast.Return) for x in _walk_stmt_no_nested(st)):
+            raise _GiveUp("return inside a loop / try / with of __exit__")
+        if isinstance(st, ast.Expr) and isinstance(st.value, ast.Constant):
+            continue
+        if isinstance(st, ast.Pass):
+            continue
+        out.append(st)
+    if mode == "exc":
+        out.append(ast.Raise(None, None))          # falling off the end returns None: the exception goes on
+    return out
+
+
+def _cm_isinstance(t: ast.expr) -> tuple[ast.expr, bool] | None:
+    """t is `isinstance(<the caught exception>, T)` or its negation -> (T, polarity)"""
+    pol = True
+    while isinstance(t, ast.UnaryOp) and isinstance(t.op, ast.Not):
+        t, pol = t.operand, not pol
+    if isinstance(t, ast.Call) and chain(t.func) == "isinstance" and len(t.args) == 2 and not t.keywords \
+            and isinstance(t.args[0], ast.Name) and t.args[0].id.startswith(_CM_EXC):
+        return t.args[1], pol
+    return None
+
+
+def _cm_is_reraise(stmts: list) -> bool:
+    return len(stmts) == 1 and isinstance(stmts[0], ast.Raise) and stmts[0].exc is None
+
+
+def _cm_stable_args(node: ast.AST, w: ast.With, exprs: list) -> bool:
+    """each expression denotes the same object when the with-statement is left as when it was entered: literals, names and
+    attribute chains that nothing inside the with-statement rebinds"""
+    stored = {x.id for st in w.body for x in ast.walk(st) if isinstance(x, ast.Name) and isinstance(x.ctx, (ast.Store, ast.Del))}
+    stored |= {x.name for st in w.body for x in ast.walk(st) if isinstance(x, ast.ExceptHandler) and x.name}
+    stored_attrs = {x.attr for x in ast.walk(node) if isinstance(x, ast.Attribute) and isinstance(x.ctx, (ast.Store, ast.Del))}
+    for e in exprs:
+        e = strip_cast(e)
+        if isinstance(e, ast.Constant):
+            continue
+        if not _simple_value(e) or isinstance(e, ast.Lambda):
+            return False
+        while isinstance(e, ast.Attribute):
+            if e.attr in stored_attrs:
+                return False
+            e = e.value
+        if e.id in stored:
+            return False
+    return True
+
+
+def _cm_class_parts(fi: FuncInfo, k, call: ast.Call) -> tuple[dict, FuncInfo | None, FuncInfo]:
+    """(field -> constructor argument, __enter__ or None for the inherited `return self`, __exit__) of a new private manager class"""
+    repo = _REPO[0]
+    ex, en, init = k.lookup("__exit__"), k.lookup("__enter__"), k.lookup("__init__")
+    if ex is None or ex.is_async or not _is_new(repo, ex) or (en is not None and not _is_new(repo, en)) or (init is not None and not _is_new(repo, init)):
+        raise _GiveUp("not a new manager class")
+    if any(m.cls is not k for m in (ex, en, init) if m is not None):
+        raise _GiveUp("manager methods inherited")
+    if k.all_subclasses():
+        raise _GiveUp("manager class has subclasses")
+    for m in (ex, en, init):
+        if m is not None and (m.decorators or not _names_agree(fi.module, m.module, m.node)):
+            raise _GiveUp("manager method decorated / reads other globals")
+    fields: dict[str, ast.expr] = {}
+    if init is not None:
+        bound = _bind_call(ast.Call(ast.Attribute(call.func, "__init__", ast.Load()), call.args, call.keywords), init)
+        if bound is None:
+            raise _GiveUp("constructor arguments not bound")
+        a = init.node.args
+        allp = a.posonlyargs + a.args
+        for p_, dv in zip(allp[len(allp) - len(a.defaults):], a.defaults):
+            bound.setdefault(p_.arg, dv)
+        for p_, dv in zip(a.kwonlyargs, a.kw_defaults):
+            if dv is not None:
+                bound.setdefault(p_.arg, dv)
+        me = init.params()[0]
+        for st in init.node.body:
+            if isinstance(st, ast.Expr) and isinstance(st.value, ast.Constant):
+                continue
+            t = st.targets[0] if isinstance(st, ast.Assign) and len(st.targets) == 1 else st.target if isinstance(st, ast.AnnAssign) and st.value is not None else None
+            v = strip_cast(st.value) if t is not None else None
+            if not (isinstance(t, ast.Attribute) and isinstance(t.value, ast.Name) and t.value.id == me and t.attr not in fields
+                    and ((isinstance(v, ast.Name) and v.id in bound and v.id != me) or isinstance(v, ast.Constant))):
+                raise _GiveUp("__init__ does more than store its arguments")
+            fields[t.attr] = bound[v.id] if isinstance(v, ast.Name) else v
+    else:
+        rf = _record_fields(fi.module, k)
+        if rf is None:
+            if call.args or call.keywords or any(b.split(".")[-1] not in ("object", "AbstractContextManager", "ABC") for b in k.base_names):
+                raise _GiveUp("construction of the manager not understood")
+        else:
+            order, defaults = rf
+            if any(isinstance(x, ast.Starred) for x in call.args) or any(kw.arg is None or kw.arg not in order for kw in call.keywords) or len(call.args) > len(order):
+                raise _GiveUp("constructor arguments not bound")
+            fields = dict(defaults)
+            fields.update(zip(order, call.args))
+            fields.update({kw.arg: kw.value for kw in call.keywords})
+            if set(fields) != set(order):
+                raise _GiveUp("constructor arguments not bound")
+    # a field written anywhere else is not the constructor argument any more
+    for m in k.methods.values():
+        if m is init:
+            continue
+        for x in ast.walk(m.node):
+            if isinstance(x, ast.Attribute) and isinstance(x.ctx, (ast.Store, ast.Del)):
+                raise _GiveUp("the manager keeps state of its own")
+    if en is None and not any(b.split(".")[-1] == "AbstractContextManager" for b in k.base_names):
+        raise _GiveUp("no __enter__")
+    return fields, en, ex
+
+
+def _cm_instantiate(m: FuncInfo, fields: dict, extra: dict[str, ast.AST], taken: set[str]) -> list:
+    """a copy of m's body with `self.<field>` replaced by the constructor argument, the other parameters by `extra`, and its own
+    locals kept apart from the caller's"""
+    fn = clone(m.node)
+    me = m.params()[0]
+    a = fn.args
+    params = [x.arg for x in a.posonlyargs + a.args + a.kwonlyargs]
+    if a.kwarg is not None or any(p not in extra for p in params[1:]):
+        raise _GiveUp("manager method parameters not understood")
+    if a.vararg is not None and a.vararg.arg in {x.id for x in ast.walk(fn) if isinstance(x, ast.Name)}:
+        raise _GiveUp("manager method reads *args")
+    if any(isinstance(x, (ast.FunctionDef, ast.AsyncFunctionDef, ast.Lambda, ast.ClassDef, ast.Yield, ast.YieldFrom, ast.Await, ast.Global, ast.Nonlocal))
+           for st in fn.body for x in ast.walk(st)):
+        raise _GiveUp("manager method shape")
+    locals_ = {x.id for st in fn.body for x in ast.walk(st) if isinstance(x, ast.Name) and isinstance(x.ctx, (ast.Store, ast.Del))}
+    locals_ |= {x.name for st in fn.body for x in ast.walk(st) if isinstance(x, ast.ExceptHandler) and x.name}
+    if locals_ & set(params):
+        raise _GiveUp("manager method rebinds a parameter")
+    mapping = {}
+    for n_ in sorted(locals_):
+        new_ = n_
+        while new_ in taken:
+            new_ += "_cm"
+        taken.add(new_)
+        if new_ != n_:
+            mapping[n_] = new_
+
+    class _F(ast.NodeTransformer):
+        def visit_Attribute(self, n):
+            if isinstance(n.value, ast.Name) and n.value.id == me and isinstance(n.ctx, ast.Load) and n.attr in fields:
+                return ast.copy_location(clone(fields[n.attr]), n)
+            self.generic_visit(n)
+            return n
+
+        def visit_Name(self, n):
+            if n.id == me:
+                raise _GiveUp("the manager object itself is used")
+            return n
+
+        def visit_ExceptHandler(self, n):
+            self.generic_visit(n)
+            if n.name in mapping:
+                n.name = mapping[n.name]
+            return n
+    body = [_F().visit(st) for st in fn.body]
+    body = [_Rename(mapping, extra).visit(st) for st in body]
+    return body
+
+
+def _cm_tag(e: ast.AST, **tags) -> ast.AST:
+    for k_, v in tags.items():
+        setattr(e, k_, v)
+    return e
+
+
+class _CmExcAtoms(ast.NodeTransformer):
+    """`issubclass(type(e), T)` -> `isinstance(e, T)` (the same test for an exception instance)"""
+
+    def visit_Call(self, n):
+        self.generic_visit(n)
+        if chain(n.func) == "issubclass" and len(n.args) == 2 and not n.keywords and getattr(n.args[0], "_c10_typeof", None):
+            return ast.copy_location(ast.Call(ast.Name("isinstance", ast.Load()), [ast.Name(n.args[0]._c10_typeof, ast.Load()), n.args[1]], []), n)
+        return n
+
+
+def _desugar_class_manager(fi: FuncInfo, node: ast.AST, w: ast.With, k, taken: set[str]) -> list:
+    item = w.items[0]
+    call = item.context_expr
+    fields, en, ex = _cm_class_parts(fi, k, call)
+    if not _cm_stable_args(node, w, list(fields.values())):
+        raise _GiveUp("constructor arguments may change while the with-statement runs")
+    pre: list = []
+    if en is not None:
+        eb = _cm_instantiate(en, fields, {}, taken) if not (item.optional_vars is not None and any(
+            isinstance(x, ast.Return) and isinstance(x.value, ast.Name) and x.value.id == en.params()[0] for x in ast.walk(en.node))) else None
+        if eb is None:
+            raise _GiveUp("`as` binds the manager object")
+        eb = [st for st in eb if not (isinstance(st, ast.Expr) and isinstance(st.value, ast.Constant)) and not isinstance(st, ast.Pass)]
+        last = eb[-1] if eb and isinstance(eb[-1], ast.Return) else None
+        if last is not None:
+            eb = eb[:-1]
+        if any(isinstance(x, ast.Return) for st in eb for x in ast.walk(st)):
+            raise _GiveUp("__enter__ returns from several places")
+        pre = eb
+        val = last.value if last is not None and last.value is not None else ast.Constant(None)
+        if item.optional_vars is not None:
+            pre.append(ast.copy_location(ast.Assign([item.optional_vars], val), w))
+        elif any(isinstance(x, ast.Call) for x in ast.walk(val)):
+            pre.append(ast.copy_location(ast.Expr(val), w))
+    elif item.optional_vars is not None:
+        raise _GiveUp("`as` binds the manager object")
+    a = ex.node.args
+    eparams = [x.arg for x in (a.posonlyargs + a.args)[1:]]
+    if len(eparams) > 3 or a.kwonlyargs:
+        raise _GiveUp("__exit__ signature")
+    used = {x.id for x in ast.walk(ex.node) if isinstance(x, ast.Name)}
+    escapes = _cm_escapes(w.body)
+    if not (set(eparams) & used):
+        # the exit part does not look at how BODY ended: when it never asks for the exception to be swallowed it is a `finally`
+        rets = [x for x in ast.walk(ex.node) if isinstance(x, ast.Return)]
+        if all(x.value is None or (isinstance(x.value, ast.Constant) and not x.value.value) for x in rets):
+            fin = _cm_conv(_cm_instantiate(ex, fields, {p: ast.Constant(None) for p in eparams}, taken), "norm")
+            return pre + ([ast.copy_location(ast.Try(w.body, [], [], fin), w)] if fin else w.body)
+    ev = _CM_EXC
+    while ev in taken:
+        ev += "_"
+    taken.add(ev)
+    none3 = {p: ast.Constant(None) for p in eparams}
+    norm_part = _cm_conv(_cm_instantiate(ex, fields, none3, taken), "norm")
+    exc3: dict[str, ast.AST] = {}
+    for i, p in enumerate(eparams):
+        if i == 0:
+            exc3[p] = _cm_tag(ast.Call(ast.Name("type", ast.Load()), [ast.Name(ev, ast.Load())], []), _c10_notnone=True, _c10_truthy=True, _c10_typeof=ev)
+        elif i == 1:
+            exc3[p] = _cm_tag(ast.Name(ev, ast.Load()), _c10_notnone=True)
+        else:
+            exc3[p] = ast.Attribute(ast.Name(ev, ast.Load()), "__traceback__", ast.Load())
+
+    class _Tagged(_Rename):
+        def visit_Name(self, n):
+            if n.id in self.subst and isinstance(n.ctx, ast.Load):
+                src = self.subst[n.id]
+                new = clone(src)
+                for t_ in ("_c10_notnone", "_c10_truthy", "_c10_typeof"):
+                    if hasattr(src, t_):
+                        setattr(new, t_, getattr(src, t_))
+                return ast.copy_location(new, n)
+            return n
+    def make_raw() -> list:
+        raw = _cm_instantiate(ex, fields, {p: ast.Name(p, ast.Load()) for p in eparams}, set(taken))
+        return [_CmExcAtoms().visit(_Tagged({}, exc3).visit(st)) for st in raw]
+
+    def type_tests(stmts: list) -> list[ast.Call]:
+        return [x for st in stmts for x in ast.walk(st) if isinstance(x, ast.Call) and _cm_isinstance(x) is not None]
+    # one `except T` clause per exception type the exit part asks about (`isinstance(e, T)` is pure and e is not rebound, so reading
+    # the exit part once with the answer "yes" under `except T` and once with "no" under the clause after it is the same program)
+    kinds: list[ast.expr] = []
+    for c in type_tests(make_raw()):
+        if not any(norm(c.args[1]) == norm(k_) for k_ in kinds):
+            kinds.append(c.args[1])
+    if len(kinds) > 3:
+        raise _GiveUp("the exit part distinguishes many exception types")
+    if norm_part and escapes:
+        raise _GiveUp("the exit part has work to do when BODY returns")
+
+    def specialised(answers: dict[str, bool]) -> list:
+        raw = make_raw()
+        holder = ast.Module(raw, [])
+
+        class _A(ast.NodeTransformer):
+            def visit_Call(self, n):
+                self.generic_visit(n)
+                if _cm_isinstance(n) is not None and norm(n.args[1]) in answers:
+                    return ast.copy_location(ast.Constant(answers[norm(n.args[1])]), n)
+                return n
+        _A().visit(holder)
+        return _cm_conv(holder.body, "exc")
+    handlers = []
+    answers: dict[str, bool] = {}
+    for k_ in [*kinds, None]:
+        if k_ is not None:
+            part = specialised({**answers, norm(k_): True})
+            answers[norm(k_)] = False
+        else:
+            part = specialised(answers)
+        named = any(isinstance(x, ast.Name) and x.id == ev for st in part for x in ast.walk(st))
+        htype = clone(k_) if k_ is not None else ast.Name("BaseException", ast.Load())
+        handlers.append(ast.copy_location(ast.ExceptHandler(htype, ev if named else None, part or [ast.copy_location(ast.Pass(), w)]), w))
+    while handlers and _cm_is_reraise(handlers[-1].body):
+        handlers.pop()
+    if not handlers and not norm_part:
+        return pre + w.body
+    if not handlers:
+        # only work after a normal end: BODY, then that work (BODY cannot leave by return / break / continue here)
+        return pre + w.body + norm_part
+    return pre + [ast.copy_location(ast.Try(w.body, handlers, norm_part, []), w)]
+
+
+def _desugar_generator_manager(fi: FuncInfo, node: ast.AST, w: ast.With, t: FuncInfo, taken: set[str]) -> list:
+    item = w.items[0]
+    call = item.context_expr
+    b = _bind_call(call, t)
+    if b is None or t.is_async or not _names_agree(fi.module, t.module, t.node):
+        raise _GiveUp("call of the generator manager not bound")
+    fn = clone(t.node)
+    set_parents(fn)
+    a = fn.args
+    if a.vararg or a.kwarg:
+        raise _GiveUp("generator manager takes *args")
+    allp = a.posonlyargs + a.args
+    for p_, dv in zip(allp[len(allp) - len(a.defaults):], a.defaults):
+        b.setdefault(p_.arg, dv)
+    for p_, dv in zip(a.kwonlyargs, a.kw_defaults):
+        if dv is not None:
+            b.setdefault(p_.arg, dv)
+    params = [x.arg for x in allp + a.kwonlyargs]
+    is_method = t.cls is not None and "staticmethod" not in t.decorator_names()
+    if is_method:
+        if not (isinstance(call.func, ast.Attribute) and isinstance(call.func.value, ast.Name) and params):
+            raise _GiveUp("receiver of the generator manager")
+        b[params[0]] = call.func.value
+    if set(b) != set(params) or not _cm_stable_args(node, w, list(b.values())):
+        raise _GiveUp("arguments of the generator manager may change while the with-statement runs")
+    ys = [x for x in ast.walk(fn) if isinstance(x, (ast.Yield, ast.YieldFrom))]
+    if len(ys) != 1 or not isinstance(ys[0], ast.Yield) or not isinstance(parent(ys[0]), ast.Expr):
+        raise _GiveUp("generator manager without exactly one plain yield statement")
+    if any(isinstance(x, (ast.Return, ast.FunctionDef, ast.AsyncFunctionDef, ast.Lambda, ast.ClassDef, ast.Await, ast.Global, ast.Nonlocal)) for st in fn.body for x in ast.walk(st)):
+        raise _GiveUp("generator manager shape")
+    ystmt = parent(ys[0])
+    tail_empty = True
+    cur = ystmt
+    for anc in ancestors(ystmt):
+        blk = next((getattr(anc, f) for f in ("body", "orelse", "finalbody") if isinstance(getattr(anc, f, None), list) and any(x is cur for x in getattr(anc, f))), None)
+        if blk is None or isinstance(anc, (ast.For, ast.AsyncFor, ast.While, ast.ExceptHandler)) or (isinstance(anc, ast.Try) and blk is not anc.body):
+            raise _GiveUp("yield inside a loop / handler / finally")
+        if blk[-1] is not cur or (isinstance(anc, ast.Try) and anc.orelse):
+            tail_empty = False
+        if anc is fn:
+            break
+        cur = anc
+    if _cm_escapes(w.body) and not tail_empty:
+        raise _GiveUp("the generator manager has work to do after the yield when BODY returns")
+    locals_ = {x.id for st in fn.body for x in ast.walk(st) if isinstance(x, ast.Name) and isinstance(x.ctx, (ast.Store, ast.Del))}
+    locals_ |= {x.name for st in fn.body for x in ast.walk(st) if isinstance(x, ast.ExceptHandler) and x.name}
+    if locals_ & set(params):
+        raise _GiveUp("generator manager rebinds a parameter")
+    mapping = {}
+    for n_ in sorted(locals_):
+        new_ = n_
+        while new_ in taken:
+            new_ += "_cm"
+        taken.add(new_)
+        if new_ != n_:
+            mapping[n_] = new_
+    for x in ast.walk(fn):
+        if isinstance(x, ast.ExceptHandler) and x.name in mapping:
+            x.name = mapping[x.name]
+    marker = "yield_cm_here_"
+    ystmt.value = ast.Name(marker, ast.Load())
+    yval = ys[0].value
+    body = [_Rename(mapping, b).visit(st) for st in fn.body]
+    yval = _Rename(mapping, b).visit(yval) if yval is not None else None
+    repl: list = []
+    if item.optional_vars is not None:
+        repl.append(ast.copy_location(ast.Assign([item.optional_vars], yval if yval is not None else ast.Constant(None)), w))
+    elif yval is not None and any(isinstance(x, ast.Call) for x in ast.walk(yval)):
+        repl.append(ast.copy_location(ast.Expr(yval), w))
+    repl += w.body
+    holder = ast.Module(body, [])
+
+    def put(st):
+        if isinstance(st, ast.Expr) and isinstance(st.value, ast.Name) and st.value.id == marker:
+            return repl
+        return None
+    if not _rewrite_blocks(holder, put):
+        raise _GiveUp("yield not found")
+    return [st for st in holder.body if not (isinstance(st, ast.Expr) and isinstance(st.value, ast.Constant))]
+
+
+def _desugar_new_managers(fi: FuncInfo, node: ast.AST) -> bool:
+    """every `with` over a NEW private context manager in node written out (see above); AnalysisError when one cannot be"""
+    repo = _REPO[0]
+    if repo is None or not any(isinstance(x, ast.With) for x in walk_no_nested(node)):
+        return False
+    taken = _names(node) | {x.arg for x in ast.walk(node) if isinstance(x, ast.arg)}
+
+    def manager(e: ast.AST):
+        e = strip_cast(e)
+        if not isinstance(e, ast.Call):
+            return None
+        f = e.func
+        k = _class_of(fi.module, f) if isinstance(f, (ast.Name, ast.Attribute)) else None
+        if k is not None and k.lookup("__exit__") is not None and _is_new(repo, k.lookup("__exit__")):
+            return ("class", k)
+        t = None
+        if isinstance(f, ast.Name):
+            t = repo.resolve_name(fi.module, f.id)
+            t = t if isinstance(t, FuncInfo) and t.cls is None and t.module.functions.get(t.name) is t else None
+        elif isinstance(f, ast.Attribute) and isinstance(f.value, ast.Name) and f.value.id in ("self", "cls") and fi.cls is not None:
+            t = fi.cls.lookup(f.attr)
+            if t is not None and sum(1 for c in repo.all_classes() if f.attr in c.methods) != 1:
+                t = None
+        if t is not None and _is_new(repo, t) and [_last(d) for d in t.decorator_names()] == ["contextmanager"]:
+            return ("gen", t)
+        return None
+
+    def fn(st):
+        if not isinstance(st, ast.With) or not any(manager(i.context_expr) is not None for i in st.items):
+            return None
+        if len(st.items) > 1:
+            # `with A, B: BODY` is `with A: with B: BODY`
+            inner = ast.copy_location(ast.With(st.items[1:], st.body), st)
+            return [ast.copy_location(ast.With(st.items[:1], [inner]), st)]
+        kind, what = manager(st.items[0].context_expr)
+        try:
+            if kind == "class":
+                return _desugar_class_manager(fi, node, st, what, taken)
+            return _desugar_generator_manager(fi, node, st, what, taken)
+        except _GiveUp as e:
+            raise AnalysisError(f"undecided: {fi.qualname} uses the new context manager `{norm(st.items[0].context_expr)}`, which cannot be written out as "
+                                f"try / except / finally ({e}); it may swallow exceptions or do work on exit that the path rules would not see") from None
+    changed = False
+    for _ in range(4):
+        set_parents(node)
+        if not _rewrite_blocks(node, fn):
+            break
+        changed = True
+        ast.fix_missing_locations(node)
+    return changed
+
+
 def _view(ctx: Ctx, fi: FuncInfo) -> FuncInfo:
     """fi as the rules read it - a private copy on which only behaviour-preserving rewrites are made: `with suppress(E)` written as
     try / except E: pass; every `for` over a filtered generator expression / map / filter pipeline or over a call of a generator
@@ -2352,6 +2887,10 @@ def _build_view(ctx: Ctx, fi: FuncInfo) -> FuncInfo:
         tmp = FuncInfo(fi.name, fi.qualname, node, fi.module, fi.cls)
         changed = False
         if _inline_new_helpers(fi, node):
+            changed = True
+            ast.fix_missing_locations(node)
+            set_parents(node)
+        if _desugar_new_managers(fi, node):
             changed = True
             ast.fix_missing_locations(node)
             set_parents(node)
@@ -2730,6 +3269,49 @@ def rule_on_timeout(ctx: Ctx) -> None:
         kind, loops = _site_kind(fi, base, {cache: "cache"})
         visited = visited or (kind == "future" and _complete(loops))
     ctx.check(visited, "timeout-unregisters-first", fi, fi.node, "every managed future is visited", "not all futures tied to the cache are completed on timeout")
+    # the futures completed are the ones tied to the cache when the callback has returned: whatever the traversal iterates is read from
+    # cache.managed_futures after cache.on_timeout() - a copy / selection computed from the list before the callback misses every future
+    # the callback ties to its cache (register_future) and every timeout value it sets; the timer fires only once
+    un = [n for u in ucalls for n in cfg.nodes_for(u)]
+    stale: list[ast.stmt] = []
+    seen_loops: set[int] = set()
+    for s, alts in sets:
+        for l in _site_kind(fi, alts[0], {cache: "cache"})[1]:
+            if id(l) in seen_loops:
+                continue
+            seen_loops.add(id(l))
+            its = [l.iter] if isinstance(l, (ast.For, ast.AsyncFor)) else [g.iter for g in getattr(l, "generators", [])]
+            for it in its:
+                stale += [st for st in _derived_before(fi, cfg, it, un) if not any(st is x for x in stale)]
+    if un and sets:
+        ctx.check(not stale, "timeout-completes-tied-futures", fi, stale[0] if stale else fi.node,
+                  "the futures completed on timeout are read from cache.managed_futures after cache.on_timeout() returned",
+                  "_on_timeout completes a copy of cache.managed_futures computed before cache.on_timeout() ran: a future the callback ties to "
+                  "its cache (register_future) is never completed - the timeout fires only once, it stays pending forever - and a timeout "
+                  "value the callback sets is ignored")
+
+
+def _derived_before(fi: FuncInfo, cfg, e: ast.AST, after: list, depth: int = 4) -> list[ast.stmt]:
+    """assignments feeding e whose value is computed from a managed-futures list (a copy, a selection, a length - anything but a plain
+    alias of the live list) on some path that has not completed one of the `after` nodes"""
+    if depth <= 0:
+        return []
+    out: list[ast.stmt] = []
+    bound = {x.id for x in ast.walk(e) if isinstance(x, ast.Name) and isinstance(x.ctx, ast.Store)}
+    for x in ast.walk(e):
+        if not (isinstance(x, ast.Name) and isinstance(x.ctx, ast.Load)) or x.id in bound or x.id in fi.params():
+            continue
+        for st, val, _ in local_defs(fi, x.id):
+            if val is None or isinstance(st, (ast.For, ast.AsyncFor)):
+                continue
+            v = strip_cast(val)
+            reads_list = any(isinstance(y, ast.Attribute) and y.attr in _managed_names() for y in ast.walk(v))
+            if reads_list and not _simple_value(v):
+                if not all(cfg.must_complete(n, after) for n in cfg.nodes_for(st)):
+                    out.append(st)
+            else:
+                out += _derived_before(fi, cfg, v, after, depth - 1)
+    return out
 
 
 def _canon(fi: FuncInfo, e: ast.AST, depth: int = 3) -> str:
@@ -3887,6 +4469,9 @@ WITNESSES = [
     {"name": "timeout callback before unregister", "file": RC, "rule": "timeout-unregisters-first",
      "old": "        if identifier in self._identifiers:\n            self._identifiers.pop(identifier)\n\n        cache.on_timeout()\n",
      "new": "        cache.on_timeout()\n        if identifier in self._identifiers:\n            self._identifiers.pop(identifier)\n"},
+    {"name": "timeout completes a snapshot taken before the callback", "file": RC, "rule": "timeout-completes-tied-futures",
+     "old": "        cache.on_timeout()\n\n        for future, on_timeout in cache.managed_futures:\n",
+     "new": "        pending = list(cache.managed_futures)\n        cache.on_timeout()\n\n        for future, on_timeout in pending:\n"},
     {"name": "future completed even if done", "file": RC, "rule": "timeout-unregisters-first",
      "old": "            if not future.done():\n                if isinstance(on_timeout, Exception):",
      "new": "            if future is not None:\n                if isinstance(on_timeout, Exception):"},
